@@ -1,4 +1,326 @@
-import CV.Model.Core.Machine
+import CV.Proofs.InvRunCode
+/-
+C08 — run()/stop(): started once, everything queued is drained, stopped once.
+
+Machine-level theorems about the small-step core machine (`CV.Model.Core.Step`), over all
+configurations a driver session can reach (`Reach`, CV/Proofs/CoreReach.lean) from a well-formed
+initial state, for all programs, templates, tapes and session scripts.
+
+  `Init s0`   the only hypothesis on the initial state: the two reserved event names `started` /
+              `stopped` are not used by user templates or by pre-existing timer events, and the
+              `fire` entries of the initial log refer to existing events (`WF`; e.g. any state
+              with an empty log and no timers whose templates avoid the two names).
+
+A `run()` of component `x` is the segment of a session from a reachable configuration `c0` with
+`c0.stack = [.run x]` (what `startRun` produces; no other arm pushes a `.run` frame) onwards:
+`runN n c0`, n = 0, 1, 2, …  (`runN` is plain iteration of `step`: `runN_succ'`).
+`firesOf nm y s` counts the log entries "fire of an event named `nm` whose first argument is
+component `y`" (`started(y)`, `stopped(y)`).
+-/
 namespace CV.C08
-theorem placeholder : True := trivial
+open CV.Core
+
+/-- hypothesis on the initial state of a session -/
+def Init (s0 : St) : Prop := WF s0
+
+/-! ### 1. stop() on a manager that is not running has no effect -/
+
+/-- the `.stopMgr x code` arm on a component that is not running only pops its frame: state, log,
+    return register and pending exception are unchanged -/
+theorem stop_idle_noop (c : Cfg) (k : List Frame) (x : Nat) (code : Code)
+    (h : (c.st.comp x).running = false) :
+    stepFrame c k (.stopMgr x code) = { c with stack := k } := by
+  show c.stopMgr k x code = _
+  unfold Cfg.stopMgr
+  simp [h, Cfg.pop]
+
+/-- … and as an external operation `x.stop(code)` of the environment: four steps, nothing changed,
+    no `SystemExit` -/
+theorem stop_idle_noop_op (s : St) (x : Nat) (code : Code) (h : (s.comp x).running = false) :
+    runN 4 (startDo s x (.stopMgr x code)) = { st := s, stack := [], ret := .out .none, exn := none } := by
+  simp [runN, startDo, Cfg.start, done, step, stepFrame, Cfg.acts, actStep, Cfg.goto, Cfg.stopMgr, h,
+    Cfg.pop, Cfg.popRet, Cfg.doFin, Ret.outcome]
+
+/-! ### 2. started is dispatched exactly once per run() -/
+
+/-- no step other than the execution of a `.run` frame fires `started(y)`, for any `y` -/
+theorem started_only_by_run {s0 : St} (hi : Init s0) {c : Cfg} (hr : Reach s0 c)
+    (hnr : ∀ y k, c.stack = .run y :: k → c.exn ≠ none) (y : Nat) :
+    firesOf Name.started y (step c).st = firesOf Name.started y c.st :=
+  (step_flags (reach_inv hi c hr).1 hnr y).started
+
+/-- from the first step of `x.run()` on, at every later point of the session segment (in
+    particular when `run()` returns), exactly one `started(x)` has been fired since the start of
+    the run, and no `started(y)` for any other `y` -/
+theorem started_once {s0 : St} (hi : Init s0) {c0 : Cfg} (hr : Reach s0 c0) {x : Nat}
+    (hs : c0.stack = [.run x]) (hx : c0.exn = none) (hlt : x < c0.st.comps.length) (n y : Nat) :
+    firesOf Name.started y (runN (n + 1) c0).st =
+      firesOf Name.started y c0.st + (if x = y then 1 else 0) :=
+  (run_rel (reach_inv hi c0 hr).1 hs hx hlt n).started y
+
+/-! ### 3. stopped is dispatched exactly once per run() -/
+
+/-- any step that is not the start of a `run()`: either `x.running` and the number of
+    `stopped(x)` fired are both unchanged, or `x` was running, is not running any more, and exactly
+    one `stopped(x)` was fired (then the step is `St.stopBegin x`, see `step_flags`) -/
+theorem stopped_only_by_stop {s0 : St} (hi : Init s0) {c : Cfg} (hr : Reach s0 c)
+    (hnr : ∀ y k, c.stack = .run y :: k → c.exn ≠ none) (x : Nat) :
+    (((step c).st.comp x).running = (c.st.comp x).running ∧
+        firesOf Name.stopped x (step c).st = firesOf Name.stopped x c.st) ∨
+    ((c.st.comp x).running = true ∧ ((step c).st.comp x).running = false ∧
+        firesOf Name.stopped x (step c).st = firesOf Name.stopped x c.st + 1) :=
+  (step_flags (reach_inv hi c hr).1 hnr x).stop
+
+/-- at every point of `x.run()` after its first step: no `stopped(x)` yet while `x` is running,
+    exactly one since the start of the run once it is not -/
+theorem stopped_once {s0 : St} (hi : Init s0) {c0 : Cfg} (hr : Reach s0 c0) {x : Nat}
+    (hs : c0.stack = [.run x]) (hx : c0.exn = none) (hlt : x < c0.st.comps.length) (n : Nat) :
+    firesOf Name.stopped x (runN (n + 1) c0).st =
+      firesOf Name.stopped x c0.st + (if ((runN (n + 1) c0).st.comp x).running = true then 0 else 1) := by
+  have := (run_rel (reach_inv hi c0 hr).1 hs hx hlt n).stopped
+  split
+  · rename_i h; simp only [h, if_true] at this; omega
+  · rename_i h; simp only [h] at this; simpa using this
+
+/-- `run()` keeps processing until `stop()`: the main loop `while self.running or len(self._queue)`
+    calls `tick()` again as long as `x` is running or its queue is non-empty, and is left (for the
+    fade-out ticks) exactly when `x` is not running and the queue is empty -/
+theorem keeps_processing (c : Cfg) (k : List Frame) (x : Nat) :
+    stepFrame c k (.runLoop x) =
+      if (c.st.comp x).running = true ∨ (c.st.comp x).eq.len > 0
+      then c.goto k c.st [.tick x, .runLoop x] else c.pop k c.st := by
+  show c.runLoop k x = _
+  unfold Cfg.runLoop
+  simp only [Bool.or_eq_true, decide_eq_true_eq]
+
+/-- `stop(code)` on a running manager: clear the flag and fire `stopped` (`St.stopBegin`); then, if
+    the root is executing `run()`, only remember the exit code for `run()` (no `SystemExit` here);
+    otherwise tick three times inline and raise `SystemExit(code)` iff a code was given (`.stopFin`) -/
+theorem stop_running_arm (c : Cfg) (k : List Frame) (x : Nat) (code : Code)
+    (h : (c.st.comp x).running = true) :
+    stepFrame c k (.stopMgr x code) =
+      (if ((c.st.stopBegin x).comp ((c.st.stopBegin x).rootOf x)).executing = true
+       then c.pop k ((c.st.stopBegin x).stopSetCode ((c.st.stopBegin x).rootOf x) code)
+       else c.goto k (c.st.stopBegin x) [.ticks x 3, .stopFin code]) ∧
+    stepFrame c k (.stopFin code) = (if code.isSome = true then c.raise k c.st (.sysExit code) else c.pop k c.st) := by
+  constructor
+  · show c.stopMgr k x code = _
+    unfold Cfg.stopMgr
+    simp only [h, Bool.not_true, Bool.false_eq_true, if_false]
+    split <;> simp_all
+  · rfl
+
+/-! ### 4. run() returns only with an empty queue, after stop -/
+
+/-- when the code after `run()`'s `try` block is reached on the normal path (the `.runFin x` frame
+    is about to execute), `x` is not running, its queue is empty, and `.runFin x` is the last frame:
+    the run returns in this step -/
+theorem returns_drained {s0 : St} (hi : Init s0) {c : Cfg} (hr : Reach s0 c) {x : Nat} {k : List Frame}
+    (hs : c.stack = .runFin x :: k) (hx : c.exn = none) :
+    k = [] ∧ (c.st.comp x).running = false ∧ (c.st.comp x).eq.len = 0 := by
+  obtain ⟨_, y, ph, P, hsh⟩ := reach_inv hi c hr
+  obtain ⟨h1, h2, h3, h4⟩ := hsh.at_runFin hs
+  subst h1 h3 h4
+  exact ⟨h2, (hsh.good.2 hx).1, (hsh.good.2 hx).2⟩
+
+/-- the same on the `SystemExit` path: when `run()`'s `finally` (tick + drain loop) has completed
+    and the parked exception is about to be re-raised, the queue of the running component is empty -/
+theorem returns_drained_exn {s0 : St} (hi : Init s0) {c : Cfg} (hr : Reach s0 c) {ex : Exn}
+    {k : List Frame} (hs : c.stack = .runRethrow ex :: k) (hx : c.exn = none) :
+    ∃ x, k = [.runFin x] ∧ (c.st.comp x).eq.len = 0 := by
+  obtain ⟨_, y, ph, P, hsh⟩ := reach_inv hi c hr
+  obtain ⟨h1, h3, h4⟩ := hsh.at_runRethrow hs
+  subst h3 h4
+  exact ⟨y, h1, hsh.good.2 hx⟩
+
+/-- a run that returns has fired exactly one `started(x)` and exactly one `stopped(x)` -/
+theorem returns_after_one_started_one_stopped {s0 : St} (hi : Init s0) {c0 : Cfg} (hr : Reach s0 c0)
+    {x : Nat} (hs : c0.stack = [.run x]) (hx : c0.exn = none) (hlt : x < c0.st.comps.length)
+    (n : Nat) {x' : Nat} {k : List Frame}
+    (hfin : (runN n c0).stack = .runFin x' :: k) (hxn : (runN n c0).exn = none) :
+    x' = x ∧ k = [] ∧
+    firesOf Name.started x (runN n c0).st = firesOf Name.started x c0.st + 1 ∧
+    firesOf Name.stopped x (runN n c0).st = firesOf Name.stopped x c0.st + 1 ∧
+    ((runN n c0).st.comp x).eq.len = 0 := by
+  cases n with
+  | zero =>
+    have h0 : (runN 0 c0) = c0 := rfl
+    rw [h0, hs] at hfin
+    cases hfin
+  | succ n =>
+    have hrel := run_rel (reach_inv hi c0 hr).1 hs hx hlt n
+    obtain ⟨ph, P, hsh, _⟩ := hrel.shape
+    obtain ⟨h1, h2, h3, h4⟩ := hsh.at_runFin hfin
+    subst h1 h3 h4
+    have hg := hsh.good.2 hxn
+    have h5 := hrel.started x'
+    have h6 := hrel.stopped
+    simp only [hg.1] at h6
+    simp only [if_true] at h5
+    exact ⟨rfl, h2, h5, by simpa using h6, hg.2⟩
+
+/-! ### 5. the exit code -/
+
+/-- the end of `run()`: it raises `SystemExit(code)` iff the root's `_exit_code` is `code ≠ None`,
+    and returns normally otherwise -/
+theorem code_propagates (c : Cfg) (k : List Frame) (x : Nat) (hx : c.exn = none) :
+    (stepFrame c k (.runFin x)).stack = k ∧
+    (stepFrame c k (.runFin x)).exn =
+      match (c.st.comp (c.st.rootOf x)).exitCode with
+      | some code => some (.sysExit (some code))
+      | none => none := by
+  show (c.runFin k x).stack = k ∧ (c.runFin k x).exn = _
+  unfold Cfg.runFin
+  have h1 : (c.st.runEnd x).1 = (c.st.comp (c.st.rootOf x)).exitCode := by
+    unfold St.runEnd
+    dsimp only
+    rw [St.comp_modComp]
+    split <;> rfl
+  rw [h1]
+  split <;> simp_all
+
+/-- `_exit_code` of a component `r` changes only (a) in `y.stop(code)` with `code ≠ None` on a
+    running `y` whose root `r` is executing `run()` - it becomes `code` - or (b) at the end of a
+    `run()` of a component whose root is `r` - it becomes `None` -/
+theorem exit_code_written_only_by_stop {s0 : St} (hi : Init s0) {c : Cfg} (hr : Reach s0 c) (r : Nat)
+    (hne : ((step c).st.comp r).exitCode ≠ (c.st.comp r).exitCode) :
+    c.exn = none ∧
+    ((∃ y code k, c.stack = .stopMgr y code :: k ∧ (c.st.comp y).running = true ∧ code.isSome = true ∧
+        r = (c.st.stopBegin y).rootOf y ∧ ((c.st.stopBegin y).comp r).executing = true ∧
+        ((step c).st.comp r).exitCode = code) ∨
+     (∃ y k, c.stack = .runFin y :: k ∧ r = c.st.rootOf y ∧ ((step c).st.comp r).exitCode = none)) :=
+  step_exitCode (reach_inv hi c hr).1 r hne
+
+/-- a manager that has returned from `run()` can be run again: after the last step of `run()` the
+    session segment is over, `x` is not running, its queue is empty, its root is not executing and
+    holds no exit code - the values these fields have in a fresh manager -/
+theorem rerun {s0 : St} (hi : Init s0) {c : Cfg} (hr : Reach s0 c) {x : Nat} {k : List Frame}
+    (hs : c.stack = .runFin x :: k) (hx : c.exn = none) :
+    done (step c) = true ∧
+    ((step c).st.comp x).running = false ∧
+    ((step c).st.comp x).eq.len = 0 ∧
+    ((step c).st.comp (c.st.rootOf x)).executing = false ∧
+    ((step c).st.comp (c.st.rootOf x)).exitCode = none := by
+  obtain ⟨hk, hrun, hq⟩ := returns_drained hi hr hs hx
+  subst hk
+  have hwf := (reach_inv hi c hr).1
+  obtain ⟨_, _, hr2, _, hex, hcode, heq, _⟩ := runEnd_spec hwf x
+  have hst : (step c).st = (c.st.runEnd x).2 := by
+    rw [step_cons c _ _ hs hx]
+    show (c.runFin [] x).st = _
+    unfold Cfg.runFin; split <;> rfl
+  have hstack : (step c).stack = [] := by
+    rw [step_cons c _ _ hs hx]
+    exact (code_propagates c [] x hx).1
+  refine ⟨by simp [done, hstack], ?_, ?_, ?_, ?_⟩
+  · rw [hst, hr2, hrun]
+  · rw [hst, heq, hq]
+  · rw [hst, hex]
+  · rw [hst, hcode]
+
+/-- End to end: `run()` leaves with `SystemExit(v)` iff during the run an effective `x.stop(v)`
+    was executed (`EffStop`: `x` running, code `v` given, root executing `run()` - there is at most
+    one, the first stop of `x` that carries a code while `x` is still running), and returns
+    normally iff there was none.
+
+    PARTIAL.  Full statement: the same without `hclean`, `hcode`, `hroot`.  Obstacles (all three are
+    false of the model, and the first two of the real code as well, for histories outside the
+    property's scope): `hcode` - a stale `_exit_code` left on the root before the run is reported by
+    this run (`code_propagates_run_witness`); `hclean` - another *running* manager `y` in the same
+    tree that is stopped with a code writes the same root attribute; `hroot` - if `x` is registered
+    under another root while it runs, `stop` and the end of `run()` look at different roots. -/
+theorem code_propagates_run_partial {s0 : St} (hi : Init s0) {c0 : Cfg} (hr : Reach s0 c0) {x : Nat}
+    (hs : c0.stack = [.run x]) (hx : c0.exn = none) (hlt : x < c0.st.comps.length)
+    (hclean : ∀ y, y ≠ x → (c0.st.comp y).running = false)
+    (hcode : (c0.st.comp x).exitCode = none)
+    (hroot : ∀ m, (runN m c0).st.rootOf x = x)
+    (n : Nat) (hfin : (runN n c0).stack = [.runFin x]) (hxn : (runN n c0).exn = none) :
+    done (runN (n + 1) c0) = true ∧
+    (∀ v, (runN (n + 1) c0).exn = some (.sysExit (some v)) ↔ ∃ m, m < n ∧ EffStop x (runN m c0) v) ∧
+    ((runN (n + 1) c0).exn = none ↔ ∀ m, m < n → ∀ v, ¬ EffStop x (runN m c0) v) :=
+  run_exit_code (reach_inv hi c0 hr).1 hs hx hlt hclean hcode hroot n hfin hxn
+
+/-- the excluded case `hcode` really fails: with a stale `_exit_code = 7` on the root, a run whose
+    only handler calls `self.stop()` WITHOUT a code (program table of `s3`) raises `SystemExit(7)` -/
+def s3 : St := {
+  comps := [{ parent := 0, root := 0, htab := [(some Name.started, 0)], exitCode := some 7 }],
+  hs := [{ owner := 0, names := [Name.started], chan := none, kind := .user 0 }],
+  progs := [[.stopMgr 0 none]] }
+
+theorem code_propagates_run_witness :
+    s3.progs = [[.stopMgr 0 none]] ∧
+    ∃ n, (runN n (startRun s3 0)).exn = some (.sysExit (some 7)) ∧ done (runN n (startRun s3 0)) = true :=
+  ⟨rfl, 59, by decide +kernel⟩
+
+/-! ### 6. KeyboardInterrupt / SystemExit raised by user code stop the manager -/
+
+/-- in the handler loop of `_dispatcher` -/
+theorem kbd_sysexit_stop_handler (c : Cfg) (k : List Frame) (r e : Nat) (rest : List Nat) (err : Bool)
+    (stale : Outcome) :
+    (c.ret.outcome = .kbdInt →
+      stepFrame c k (.hAfter r e rest err stale) = c.goto k c.st [.stopMgr r none, .hApply r e rest err stale]) ∧
+    (∀ code, c.ret.outcome = .sysExit code →
+      stepFrame c k (.hAfter r e rest err stale) = c.goto k c.st [.stopMgr r code, .hApply r e rest err stale]) := by
+  constructor
+  · intro h; show c.hAfter k r e rest err stale = _; unfold Cfg.hAfter; rw [h]
+  · intro code h; show c.hAfter k r e rest err stale = _; unfold Cfg.hAfter; rw [h]
+
+/-- in `processTask` (a generator handler resumed by `tick`) -/
+theorem kbd_sysexit_stop_task (c : Cfg) (k : List Frame) (r : Nat) (t : Task) :
+    (c.ret.yield = .kbdInt → stepFrame c k (.ptOwn r t) = c.goto k c.st [.stopMgr r none]) ∧
+    (∀ code, c.ret.yield = .sysExit code → stepFrame c k (.ptOwn r t) = c.goto k c.st [.stopMgr r code]) ∧
+    (∀ p b, c.ret.yield = .kbdInt → stepFrame c k (.ptParent r t p b) = c.goto k c.st [.stopMgr r none]) ∧
+    (∀ p b code, c.ret.yield = .sysExit code →
+      stepFrame c k (.ptParent r t p b) = c.goto k c.st [.stopMgr r code]) := by
+  refine ⟨?_, ?_, ?_, ?_⟩
+  · intro h; show c.ptOwn k r t = _; unfold Cfg.ptOwn; rw [h]
+  · intro code h; show c.ptOwn k r t = _; unfold Cfg.ptOwn; rw [h]
+  · intro p b h; show c.ptParent k r t p b = _; unfold Cfg.ptParent; rw [h]
+  · intro p b code h; show c.ptParent k r t p b = _; unfold Cfg.ptParent; rw [h]
+
+/-! ### non-vacuity -/
+
+/-- a small initial state: one component, no handlers -/
+def s1 : St := { comps := [{ parent := 0, root := 0 }] }
+
+example : Init {} := ⟨by simp, by simp, by simp⟩
+example : Init s1 := ⟨by simp [s1], by simp [s1], by simp [s1]⟩
+
+/-- the hypotheses of `started_once` / `stopped_once` are satisfiable: a session that starts with `run 0` -/
+example : ∃ c0, Reach s1 c0 ∧ c0.stack = [.run 0] ∧ c0.exn = none ∧ 0 < c0.st.comps.length :=
+  ⟨_, Reach.init 0 [] (.run 0), rfl, rfl, by decide⟩
+
+/-- a component that is not running exists -/
+example : (s1.comp 0).running = false := rfl
+
+/-- one component whose handler for `started` calls `self.stop(3)` -/
+def s2 : St := {
+  comps := [{ parent := 0, root := 0, htab := [(some Name.started, 0)] }],
+  hs := [{ owner := 0, names := [Name.started], chan := none, kind := .user 0 }],
+  progs := [[.stopMgr 0 (some 3)]] }
+
+def atRunFin (c : Cfg) (x : Nat) : Bool :=
+  match c.stack, c.exn with
+  | [.runFin y], none => y == x
+  | _, _ => false
+
+example : Init s2 := ⟨by simp [s2], by simp [s2], by simp [s2]⟩
+
+/-- the hypotheses of `returns_drained` / `rerun` / `returns_after_one_started_one_stopped` are
+    satisfiable: `run 0` on `s2` reaches its `.runFin 0` frame after 58 steps … -/
+example : atRunFin (runN 58 (startRun s2 0)) 0 = true := by decide +kernel
+
+/-- … and the next step makes `run()` raise `SystemExit(3)`: the code given to `stop()` -/
+example : (runN 59 (startRun s2 0)).exn = some (.sysExit (some 3)) ∧ done (runN 59 (startRun s2 0)) = true := by
+  decide +kernel
+
+/-- the hypotheses of `code_propagates_run_partial` other than reachability are decidable facts of
+    a start configuration; `s2` satisfies the two about flags -/
+example : (∀ y, y ≠ 0 → ((startRun s2 0).st.comp y).running = false) ∧ ((startRun s2 0).st.comp 0).exitCode = none := by
+  refine ⟨?_, rfl⟩
+  intro y hy
+  have : ¬ y < s2.comps.length := by simp [s2]; omega
+  show (s2.comp y).running = false
+  rw [St.comp_ge this]; rfl
+
 end CV.C08
